@@ -1171,8 +1171,11 @@ def run(tier: str, seed: int) -> int:
                          "every IUPAC symbol / base set x old/new x DNA/RNA; random block sampled",
         partial=["collection-level get_translation (old and new) is proved row-wise for canonical rows of any length; old "
                  "Alignment/ArrayAlignment is proved for rows of codon-aligned triplets (codons of bases or '---') of equal "
-                 "length; rows with partial-gap or ambiguity triplets inside an alignment, app.translate_seqs and "
-                 "select_translatable are compared (model and/or oracle on every case), not proved",
+                 "length; rows with partial-gap or ambiguity triplets inside an alignment and app.translate_seqs are compared "
+                 "(model and/or oracle on every case), not proved; best_frame(require_stop=False) and select_translatable "
+                 "(frame from best_frame) are modelled and proved for one canonical sequence of >= 3 symbols "
+                 "(best_frame_is_first_open_frame, select_translatable_keeps_the_frame); select_translatable(frame=k) and "
+                 "require_stop=True are compared with the oracle only",
                  "old Sequence.get_translation on degenerate codons is proved per codon on a finite domain (every code x 1063 "
                  "codons: all codons over ACGTRYN and all codons with one IUPAC symbol next to two bases; the standard code: all "
                  "15^3; partial-gap triplets: all) -- the full 15^3 x 27 enumeration is true but too slow for coqchk; the other "
